@@ -2,6 +2,7 @@ package main
 
 import (
 	"fmt"
+	"go/token"
 	"sort"
 	"strings"
 
@@ -26,6 +27,18 @@ var c14Files = []string{
 
 // Sites the prover cannot decide but that are safe for a reason established by reading (frozen; one line each).
 var r141Confirmed = map[string]string{
+	"R14.1|(acrablock.AcraBlock).Build|slice b[4:12]":                    "construction path, not a decoder: b is the block CreateAcraBlockWithBackends just allocated with NewEmptyAcraBlock(AcraBlockMinSize+...), so len(b) >= 18",
+	"R14.1|(acrablock.AcraBlock).SetDataEncryptionType|slice b[15:16]":  "construction path: same freshly allocated block of at least AcraBlockMinSize bytes",
+	"R14.1|(acrablock.AcraBlock).SetKeyEncryptionKeyID|slice b[13:15]":  "construction path: same freshly allocated block of at least AcraBlockMinSize bytes",
+	"R14.1|(acrablock.AcraBlock).SetKeyEncryptionKeyType|slice b[12:13]": "construction path: same freshly allocated block of at least AcraBlockMinSize bytes",
+	"R14.1|(*decryptor/mysql.Handler).processBinaryDataRow|index rowData[0]":    "rowData is packet.GetData() of a packet accepted by Packet.readPacket, which rejects a payload length below 1",
+	"R14.1|(*decryptor/mysql.Handler).processBinaryDataRow|index rowData[0] #2": "same: MySQL payloads are never empty (readPacket rejects length < 1)",
+	"R14.1|acrastruct.DecryptAcrastruct|slice data[:][:45]":     "ValidateAcraStructLength(data) == nil precedes: len(data) >= len(TagBegin)+KeyBlockLength+DataLengthSize; offsets are <= that within data[len(TagBegin):] (TagBegin is a package variable, so its length is not a compile-time constant the prover can use)",
+	"R14.1|acrastruct.DecryptAcrastruct|slice data[:][45:129]":  "same: guarded by ValidateAcraStructLength",
+	"R14.1|acrastruct.DecryptAcrastruct|slice data[:][129:137]": "same: guarded by ValidateAcraStructLength",
+	"R14.1|acrastruct.DecryptAcrastruct|slice data[:][137:]":    "same: guarded by ValidateAcraStructLength",
+	"R14.1|decryptor/postgresql.readUint16Array|slice remaining[:2]": "loop invariant: len(remaining) >= 2*(itemCount-i), established by the check len(remaining) < 2*itemCount before the loop (inductive, outside the prover)",
+	"R14.1|decryptor/postgresql.readUint16Array|slice remaining[2:]": "same loop invariant",
 	"R14.1|(*decryptor/postgresql.ParsePacket).Name|slice .name[:len(.name)-1]":                      "name always ends with its NUL: NewParsePacket slices data[:idx+1] after bytes.Index found the terminator, so len >= 1",
 	"R14.1|(*decryptor/postgresql.ParsePacket).QueryString|slice .query[:len(.query)-1]":             "query always ends with its NUL: NewParsePacket slices up to and including the terminator, ReplaceQuery appends one, so len >= 1",
 	"R14.1|crypto.DeserializeEncryptedData|make make(len getSerializedContainerLength(encrypted)#0)": "getSerializedContainerLength returns internalLength <= len(encrypted)-12 or an error; every caller has validated len(encrypted) > 12 first (getEnvelopeIDFromData -> validateSerializedContainer); a wrapped length-12 is rejected by the same comparison",
@@ -88,6 +101,272 @@ func boundsRuleK(p *Program, r *Report, rule string, files []string, confirmed m
 func runC14(p *Program, r *Report) {
 	r.Rule("R14.1", "E1", 40, "guarded bounds: in the input-facing decoders every slice bound, index and allocation size that derives from a length field of the input, from a subtraction, or from a lossy integer conversion is proven in range (0 <= low <= high <= len, 0 <= i < len, 0 <= n) from the branch conditions that dominate the use")
 	boundsRuleK(p, r, "R14.1", c14Files, r141Confirmed, true)
+	r.Rule("R14.3", "E1", 4, "bounded allocation: every make / Buffer.Grow / io.CopyN in the decoders whose size derives from a length field of the input has a finite upper bound that the sender does not control alone: a constant, the length of data already held, or the Len() of the reader it is read from")
+	ruleR143(p, r)
+	r.Rule("R14.4", "E3", 3, "connection isolation: every goroutine that AcraServer starts to serve a client connection runs a function whose first deferred call is recoverConnection (a panic in a decoder ends that connection, not the process)")
+	ruleR144(p, r)
+	r.Rule("R14.5", "E4", 10, "no deliberate panics on input: the decoder files contain no call of panic() reachable from their exported entry points other than in init functions")
+	ruleR145(p, r)
+	r.Rule("R14.6", "E3", 3, "decoder state hygiene: every exit of hmac.Processor.OnColumn (re)defines the armed hash, so no later column dereferences a cleared matchedHash")
+	ruleHmacProcessorState(p, r, "R14.6")
 	_ = strings.Contains
 	_ = ssa.Value(nil)
+}
+
+var r145Confirmed = map[string]string{
+	"(pseudonymization.cryptoRandomSource).Uint64": "panics only when the operating system's entropy source fails (crypto/rand.Read error); no input reaches the condition",
+}
+
+var r143Confirmed = map[string]string{
+	"R14.3|utils.ReadData|make(len ReadDataLength(reader)#1)": "no caller anywhere in the repository (helper of the retired AcraConnector framing): not reachable from an input-facing path",
+	"R14.3|crypto.DeserializeEncryptedData|make(len getSerializedContainerLength(encrypted)#0)": "internalLength <= len(encrypted)-12 by getSerializedContainerLength (callers validated len > 12), i.e. bounded by data already held",
+}
+
+// The confirmed entry for DeserializeEncryptedData rests on the callee's comparison; keep that comparison honest.
+func ruleR143Witness(p *Program, r *Report) {
+	fn := p.Func("crypto.getSerializedContainerLength")
+	if fn == nil || fn.Blocks == nil {
+		r.Anchor("R14.3", "crypto.getSerializedContainerLength")
+		return
+	}
+	param := fn.Params[0]
+	ok := false
+	for _, ret := range returnsOf(fn) {
+		if !isNilConst(retValue(ret, 1)) {
+			continue
+		}
+		rv := retValue(ret, 0)
+		// some dominating false edge of `rv > bound` with bound derived from len(param)
+		for _, b := range fn.Blocks {
+			if len(b.Instrs) == 0 {
+				continue
+			}
+			i, isIf := b.Instrs[len(b.Instrs)-1].(*ssa.If)
+			if !isIf {
+				continue
+			}
+			bo, isBo := i.Cond.(*ssa.BinOp)
+			if !isBo || bo.Op != token.GTR || bo.X != rv {
+				continue
+			}
+			derives := false
+			for v := range backClosureWithLen(bo.Y) {
+				if v == ssa.Value(param) {
+					derives = true
+				}
+			}
+			if derives && b.Succs[1].Dominates(ret.Block()) {
+				ok = true
+			}
+		}
+	}
+	r.Check(ok, "R14.3", fnName(fn), "result <= len(encrypted)-header on success", p.Pos(fn.Pos()), "the success return is dominated by the false edge of `internalLength > f(len(encrypted))`", "the serialized-container length is no longer compared with the data actually held before it is used as an allocation size")
+}
+
+func backClosureWithLen(v ssa.Value) map[ssa.Value]bool {
+	out := map[ssa.Value]bool{}
+	var walk func(v ssa.Value)
+	walk = func(v ssa.Value) {
+		if v == nil || out[v] {
+			return
+		}
+		out[v] = true
+		if in, ok := v.(ssa.Instruction); ok {
+			for _, op := range in.Operands(nil) {
+				if *op != nil {
+					walk(*op)
+				}
+			}
+		}
+	}
+	walk(v)
+	return out
+}
+
+func ruleR143(p *Program, r *Report) {
+	ruleR143Witness(p, r)
+	inScope := map[string]bool{}
+	for _, f := range c14Files {
+		inScope[f] = true
+	}
+	for _, fn := range p.srcFns {
+		if !inScope[p.FileOf(fn.Pos())] {
+			continue
+		}
+		pr := newProverP(p, fn, 0)
+		check := func(in ssa.Instruction, what string, n ssa.Value) {
+			why := pr.risky(n, nil)
+			if why == "" {
+				return
+			}
+			construct := what + "(len " + exprTextOf(p, n) + ")"
+			name := fnName(fn)
+			if ok, how := pr.UpperBounded(n, in.Block()); ok {
+				r.OK("R14.3", name, construct, p.Pos(in.Pos()), how+" ("+why+")")
+				return
+			}
+			if reason, ok := r143Confirmed["R14.3|"+name+"|"+construct]; ok {
+				r.Confirmed("R14.3", name, construct, p.Pos(in.Pos()), reason)
+				return
+			}
+			r.Bad("R14.3", name, construct, p.Pos(in.Pos()), why+"; the size has no upper bound other than the range of its type: a few bytes of input make the handler reserve gigabytes")
+		}
+		for _, b := range fn.Blocks {
+			for _, in := range b.Instrs {
+				switch x := in.(type) {
+				case *ssa.MakeSlice:
+					check(x, "make", x.Len)
+				case ssa.CallInstruction:
+					co := calleeOfCommon(x.Common())
+					if co == nil {
+						continue
+					}
+					switch co.FullName() {
+					case "(*bytes.Buffer).Grow":
+						n := x.Common().Args[1]
+						if pr.risky(n, nil) != "" && !pr.Prove(nil, 0, n, 0, x.Block()) {
+							r.Bad("R14.3", fnName(fn), "Grow(len "+exprTextOf(p, n)+") non-negative", p.Pos(x.Pos()), "bytes.Buffer.Grow panics on a negative count and the count derives from a length field of the input")
+						} else if pr.risky(n, nil) != "" {
+							r.OK("R14.3", fnName(fn), "Grow(len "+exprTextOf(p, n)+") non-negative", p.Pos(x.Pos()), "count proven >= 0")
+						}
+						check(x, "Grow", n)
+					case "io.CopyN":
+						// CopyN reads at most n bytes as they arrive: it does not reserve n up front
+					}
+				}
+			}
+		}
+	}
+}
+
+func ruleR144(p *Program, r *Report) {
+	rec := p.FuncObj("cmd/acra-server/common.recoverConnection")
+	if rec == nil {
+		r.Anchor("R14.4", "cmd/acra-server/common.recoverConnection")
+		return
+	}
+	n := 0
+	for _, fn := range p.SrcFuncs("cmd/acra-server/common") {
+		if p.FileOf(fn.Pos()) != "cmd/acra-server/common/listener.go" {
+			continue
+		}
+		for _, b := range fn.Blocks {
+			for _, in := range b.Instrs {
+				g, ok := in.(*ssa.Go)
+				if !ok {
+					continue
+				}
+				var target *ssa.Function
+				switch v := g.Call.Value.(type) {
+				case *ssa.Function:
+					target = v
+				case *ssa.MakeClosure:
+					target, _ = v.Fn.(*ssa.Function)
+				}
+				if target == nil || target.Blocks == nil {
+					continue
+				}
+				// does the goroutine handle a connection? (takes or captures a net.Conn / calls a connection handler)
+				handles := false
+				for _, prm := range target.Params {
+					if strings.Contains(prm.Type().String(), "net.Conn") {
+						handles = true
+					}
+				}
+				for _, fv := range target.FreeVars {
+					if strings.Contains(fv.Type().String(), "net.Conn") {
+						handles = true
+					}
+				}
+				for _, cs := range callsIn(target) {
+					if cs.Callee != nil && (strings.Contains(cs.Callee.Name(), "processConnection") || strings.Contains(cs.Callee.Name(), "handleConnection") || strings.Contains(cs.Callee.Name(), "HandleConnection") || (strings.HasPrefix(cs.Callee.Name(), "Proxy") && strings.HasSuffix(cs.Callee.Name(), "Connection"))) {
+						handles = true
+					}
+				}
+				if !handles {
+					continue
+				}
+				n++
+				// recoverConnection is deferred in the entry block before any acra code runs in the goroutine
+				var recDefer *ssa.Defer
+				for _, ti := range target.Blocks[0].Instrs {
+					if d, ok := ti.(*ssa.Defer); ok && calleeOfCommon(d.Common()) == rec {
+						recDefer = d
+						break
+					}
+				}
+				ok = recDefer != nil
+				if ok {
+					for _, cs := range callsIn(target) {
+						if _, isDefer := cs.Instr.(*ssa.Defer); isDefer || cs.Callee == nil || cs.Callee.Pkg() == nil {
+							continue
+						}
+						nm := cs.Callee.Name()
+						isHandler := strings.Contains(nm, "processConnection") || strings.Contains(nm, "handleConnection") || strings.Contains(nm, "HandleConnection") || strings.Contains(nm, "AddConnection") || (strings.HasPrefix(nm, "Proxy") && strings.HasSuffix(nm, "Connection"))
+						if isHandler && !instrBefore(recDefer, cs.Instr.(ssa.Instruction)) {
+							ok = false
+						}
+					}
+				}
+				r.Check(ok, "R14.4", fnName(fn), "go "+target.Name(), p.Pos(g.Pos()), "recoverConnection deferred before any acra code runs", "a goroutine serving a client connection does not defer recoverConnection(...) before running connection code: a panic in any decoder takes the whole AcraServer process down")
+			}
+		}
+	}
+	if n == 0 {
+		r.Bad("R14.4", "cmd/acra-server/common", "connection goroutines", "cmd/acra-server/common/listener.go", "no goroutine serving connections found in listener.go")
+	}
+}
+
+func ruleR145(p *Program, r *Report) {
+	inScope := map[string]bool{}
+	for _, f := range c14Files {
+		inScope[f] = true
+	}
+	files := map[string]int{}
+	for _, fn := range p.srcFns {
+		f := p.FileOf(fn.Pos())
+		if !inScope[f] {
+			continue
+		}
+		files[f]++
+		if fn.Name() == "init" || strings.HasPrefix(fn.Name(), "init#") {
+			continue
+		}
+		for _, b := range fn.Blocks {
+			for _, in := range b.Instrs {
+				if pn, ok := in.(*ssa.Panic); ok {
+					if !pn.Pos().IsValid() {
+						continue // synthetic (blocking select without default)
+					}
+					key := fnName(fn)
+					if why, ok := r145Confirmed[key]; ok {
+						r.Confirmed("R14.5", key, "panic("+exprTextOf(p, stripConv(pn.X))+")", p.Pos(pn.Pos()), why)
+						continue
+					}
+					r.Bad("R14.5", fnName(fn), "panic("+exprTextOf(p, stripConv(pn.X))+")", p.Pos(pn.Pos()), "explicit panic in an input-facing decoder")
+				}
+			}
+		}
+	}
+	var names []string
+	for f := range files {
+		names = append(names, f)
+	}
+	sort.Strings(names)
+	for _, f := range names {
+		r.OK("R14.5", f, "no panic()", f, fmt.Sprintf("%d functions scanned", files[f]))
+	}
+}
+
+func init() {
+	mut("C14", "AcraBlock.Decrypt loses its key-length check (original defect)", "acrablock/acrablock.go", "	if len(b) < AcraBlockMinSize+keySize {\n		// the key length field points past the end of the block\n		return nil, ErrInvalidAcraBlock\n	}\n", "", "R14.1", "AcraBlock).Decrypt")
+	mut("C14", "rest-length added before comparing (original defect)", "acrablock/acrablock.go", "	if restLength < AcraBlockMinSize-TagBeginSize || restLength > uint64(len(data)-TagBeginSize) {", "	if len(data) < int(restLength+TagBeginSize) {", "R14.1", "ExtractAcraBlockFromData")
+	mut("C14", "mysql length-encoded string: signed comparison again", "decryptor/mysql/base/utils.go", "	if num > uint64(len(data)-n) {\n		return nil, n, io.EOF\n	}\n	end := n + int(num)", "	if int(num) > len(data)-n {\n		return nil, n, io.EOF\n	}\n	end := n + int(num)", "R14.1", "LengthEncodedString")
+	mut("C14", "serialized container: upper length check dropped", "crypto/registry_handler.go", "	if internalLength < 0 || internalLength > uint64(len(encrypted)-SerializedContainerMinSize) {", "	if internalLength < 0 {", "R14.3", "getSerializedContainerLength")
+	mut("C14", "pg packet reader: negative length accepted again", "decryptor/postgresql/packet_handler.go", "	if packet.dataLength < 0 {\n		// declared message length smaller than the length field itself\n		return ErrPacketTruncated\n	}\n", "", "R14.3", "readData")
+	mut("C14", "pg column: allocation not bounded by the message", "decryptor/postgresql/packet_handler.go", "	if length > reader.Len() {\n		return ErrPacketTruncated\n	}\n", "", "R14.3", "ColumnData).readData")
+	mut("C14", "connection goroutine without panic recovery", "cmd/acra-server/common/listener.go", "		defer recoverConnection(sessionLogger.WithField(\"function\", \"ProxyDatabaseConnection\"), sessionCloseToCloser(clientSession.Close))\n", "", "R14.4", "handleClientSession")
+	mut("C14", "column definition tail check removed (original defect)", "decryptor/mysql/column_field.go", "	if len(packet.data) < pos+13 {\n		return nil, base.ErrMalformPacket\n	}\n", "", "R14.1", "ParseResultField")
+	mut("C14", "GetSimpleQuery slices before checking", "decryptor/postgresql/packet_handler.go", "	if packet.dataLength < 1 || packet.dataLength > len(data) {", "	if packet.dataLength > len(data) {", "R14.1", "GetSimpleQuery")
+	mut("C14", "decoder panics on unknown tag", "hmac/hash.go", "		logrus.Debugln(\"Unknown hash function\")\n		return nil", "		panic(\"unknown hash function\")", "R14.5", "ExtractHash")
 }
